@@ -35,7 +35,7 @@ func (o mpOp) String() string {
 		return "initiate " + o.k
 	case "part":
 		return fmt.Sprintf("upload-part u%d #%d %q", o.u, o.n, o.body)
-	case "complete":
+	case "complete", "complete-storefault":
 		return fmt.Sprintf("complete u%d %s", o.u, o.desc)
 	case "abort":
 		return fmt.Sprintf("abort u%d", o.u)
@@ -244,6 +244,18 @@ func (s *mpSys) Ops() []engine.Op {
 			ops = append(ops, c)
 		}
 	}
+	if s.w.Cfg.PutFault {
+		// the environment refuses the store of an otherwise valid complete
+		for i, u := range s.m.Uploads {
+			if ns := u.PartNumbers(); len(ns) > 0 {
+				var l []model.CPart
+				for _, n := range ns {
+					l = append(l, model.CPart{N: n, ETag: model.PartETag(u.Parts[n].Body)})
+				}
+				ops = append(ops, mpOp{kind: "complete-storefault", u: i, list: l, desc: descList(l, " store-fault")})
+			}
+		}
+	}
 	for i := range s.m.Uploads {
 		ops = append(ops, mpOp{kind: "abort", u: i})
 	}
@@ -364,6 +376,20 @@ func (s *mpSys) apply(op engine.Op) (string, *engine.Violation) {
 			}
 		}
 		return respSig(r), nil
+	case "complete-storefault":
+		u := s.m.Uploads[o.u]
+		s.w.FailPuts = 1
+		r := s.w.Do(drv.Req{Method: "POST", Path: "/" + s.bucket + "/" + u.Key, Query: drv.Q("uploadId", u.ID), Body: completeBody(o.list)})
+		used := s.w.FailPuts == 0
+		s.w.FailPuts = 0
+		if !used {
+			return respSig(r), &engine.Violation{Sig: "FOREIGN", Msg: "valid complete did not reach the backend: " + r.Short()}
+		}
+		if r.Panic != "" || r.Status < 400 {
+			return bad("status", "store-fault", r, "an error status", "(the backend refused to store the object)")
+		}
+		// nothing was stored: object and pending upload stay as they are (model unchanged)
+		return respSig(r), nil
 	case "abort", "abort-wrongkey":
 		u := s.m.Uploads[o.u]
 		key := u.Key
@@ -483,6 +509,18 @@ func runMP(c *engine.Ctx, prop string) {
 		engine.RunSeq(c, engine.SeqSpec{Name: name, World: worldName(cfg), MaxDepth: d,
 			New: func() (engine.Sys, error) { return newMPSys(cfg, u, prop) }})
 		c.Bounds[name] = map[string]interface{}{"keys": u.keys, "part_numbers": u.partNums, "part_bodies": u.bodies, "max_open_uploads": u.maxOpen, "max_initiated": u.maxInit, "history_depth": d}
+	}
+	if prop == "C06" {
+		// environment answer "the backend cannot store the assembled object": the
+		// complete fails and must leave the pending upload (every part) as it was,
+		// so that a retry stores the full object
+		cfg := drv.Config{Kind: drv.Mem, PutFault: true}
+		fu := &mpUniverse{keys: []string{"a"}, partNums: []int{1, 2}, bodies: []string{"a", "bb"}, maxOpen: 2, maxInit: 2, maxParts: 2}
+		name := "C06/mem/store-fault"
+		d := depth
+		engine.RunSeq(c, engine.SeqSpec{Name: name, World: "mem", MaxDepth: d,
+			New: func() (engine.Sys, error) { return newMPSys(cfg, fu, prop) }})
+		c.Bounds[name] = map[string]interface{}{"keys": fu.keys, "part_numbers": fu.partNums, "part_bodies": fu.bodies, "injected": "PutObject error during complete", "history_depth": d}
 	}
 }
 
